@@ -651,6 +651,16 @@ func eqv(t types.Type, x, y value) value {
 		if !types.Identical(a.t, b.t) {
 			return false
 		}
+		if ba, ok := a.v.(*boundIntrinsic); ok {
+			bb, ok2 := b.v.(*boundIntrinsic)
+			if !ok2 {
+				return false
+			}
+			if ba.kind == "rtype" && bb.kind == "rtype" {
+				return types.Identical(ba.data.(types.Type), bb.data.(types.Type))
+			}
+			return ba == bb
+		}
 		return eqv(a.t, a.v, b.v)
 	}
 	if isSym(y) {
